@@ -26,13 +26,66 @@ type Op struct {
 	Port    int      `json:"port,omitempty"`   // 0 main, 1 batch
 	Raw     []byte   `json:"raw,omitempty"`
 	Sec     uint32   `json:"sec,omitempty"` // advance
+	// VLen/VSeed describe a generated value (used instead of Val when VLen >= 0 and VGen is set).
+	VGen  bool `json:"vgen,omitempty"`
+	VLen  int  `json:"vlen,omitempty"`
+	VSeed int  `json:"vseed,omitempty"`
+	Spare bool `json:"spare,omitempty"` // present the key as a slice with spare capacity
+}
+
+// Value returns the op's value bytes.
+func (o Op) Value() []byte {
+	if !o.VGen {
+		return []byte(o.Val)
+	}
+	return GenValue(o.VLen, o.VSeed)
+}
+
+// GenValue is a deterministic non-repeating-looking byte pattern without zero bytes (so that
+// zero padding can be told apart from data).
+func GenValue(n, seed int) []byte {
+	b := make([]byte, n)
+	x := uint32(seed)*2654435761 + 12345
+	for i := range b {
+		x = x*1664525 + 1013904223
+		v := byte(x >> 24)
+		if v == 0 {
+			v = byte(seed) | 1
+		}
+		b[i] = v
+	}
+	return b
+}
+
+// KeyBytes returns the key as a byte slice, with or without spare capacity.
+func (o Op) KeyBytes() []byte { return KeySlice(o.Key, o.Spare) }
+
+// KeySlice makes a key slice; with spare capacity the bytes beyond len are 0xEE.
+func KeySlice(k string, spare bool) []byte {
+	if !spare {
+		b := make([]byte, len(k))
+		copy(b, k)
+		return b[:len(k):len(k)]
+	}
+	b := make([]byte, len(k)+24)
+	for i := range b {
+		b[i] = 0xEE
+	}
+	copy(b, k)
+	return b[:len(k)]
 }
 
 func (o Op) String() string {
 	switch o.Kind {
 	case "set", "add", "replace":
+		if o.VGen {
+			return fmt.Sprintf("%s@%d %s len=%d#%d f=%x ttl=%d spare=%v", o.Kind, o.Port, o.Key, o.VLen, o.VSeed, o.Flags, o.TTL, o.Spare)
+		}
 		return fmt.Sprintf("%s@%d %s %q f=%x ttl=%d", o.Kind, o.Port, o.Key, o.Val, o.Flags, o.TTL)
 	case "append", "prepend":
+		if o.VGen {
+			return fmt.Sprintf("%s@%d %s len=%d#%d spare=%v", o.Kind, o.Port, o.Key, o.VLen, o.VSeed, o.Spare)
+		}
 		return fmt.Sprintf("%s@%d %s %q", o.Kind, o.Port, o.Key, o.Val)
 	case "touch", "gat":
 		return fmt.Sprintf("%s@%d %s ttl=%d", o.Kind, o.Port, o.Key, o.TTL)
@@ -42,6 +95,9 @@ func (o Op) String() string {
 		return fmt.Sprintf("advance %ds", o.Sec)
 	case "raw":
 		return fmt.Sprintf("raw %q", o.Raw)
+	}
+	if o.Spare {
+		return fmt.Sprintf("%s@%d %s spare", o.Kind, o.Port, o.Key)
 	}
 	return fmt.Sprintf("%s@%d %s", o.Kind, o.Port, o.Key)
 }
